@@ -28,7 +28,7 @@ class P(vlib.Prop):
                   "and every schedule (any interleaving, each builder killed after any number of atomic steps, builders starting at any time) — unbounded, by "
                   "induction over the schedule; c19_transparent: from any sound state a lookup is a miss or exactly the origin's bytes for the requested key; "
                   "c19_offline and the full invariant with the in-place .dat.tar rebuild are REFUTED with machine-checked witnesses (c19_offline_refuted — an error "
-                  "on the real code, allowed by the property; c19_tarfile_rebuild_refuted — a silently different image on the real code, finding C19-F1). The model "
+                  "on the real code, allowed by the property; c19_tarfile_rebuild_refuted — a silently different image on the real code, finding C19-F1/F1b; c19_lookup_not_atomic_refuted — cachedPackage's lookups are not atomic and a hit can lose the signature section, finding C19-F2). c19_code_order pins the order of the durable calls read from the source by goextract. The model "
                   "is tied to the code by replaying kill scenarios at every hook point on model and implementation and by strace trace conformance.")
     level_note = ("trusted: Coq kernel, Go harness/printer and its path abstraction, strace; modelled not verified: the Go text of retrieveAndSaveFile / "
                   "AdvertiseCachedFile / ExpandApk / cachePackage / cachedPackage / PackageData / fetchOffline, the host filesystem, gzip/tar/RSA, net/http; "
